@@ -20,7 +20,14 @@ TCall == /\ l <= Len(Events(h)) /\ Ev.e = "c" /\ Call(Ev.p, Ev.op, Ev.k)
          /\ l' = l + 1 /\ h' = h
 TRet == /\ l <= Len(Events(h)) /\ Ev.e = "r" /\ Ret(Ev.p, Ev.op, Norm(Ev.w))
         /\ l' = l + 1 /\ UNCHANGED <<h, want>>
-TLin == /\ l <= Len(Events(h)) /\ UNCHANGED <<h, l, want>>
+\* Search-space reduction (keeps exactly the same set of accepted histories): internal steps are taken only when the next
+\* event is the return of a call that has not taken effect yet (the last internal step before that return is then the one
+\* of the returning call).  Every placement of internal steps can be brought into this form by moving each step to the
+\* right, in order, up to the first return of a call whose step does not precede it: an internal step of p commutes with
+\* the Call and Ret events of the other processes - Call(q) reads ed only to compute cov[q], which can only get smaller
+\* when steps are delayed (cov and dead occur only negatively in guards); Ret(q) writes dead from cov[q], and the steps
+\* that write dead (LinOw, LinOu) remove their anchor from / propagate through cov in the same way in either order.
+TLin == /\ l <= Len(Events(h)) /\ Ev.e = "r" /\ ~done[Ev.p] /\ UNCHANGED <<h, l, want>>
         /\ \E p \in Proc : IF want[p].known THEN Lin(p, want[p].r) ELSE \E r \in ResDom(p) : Lin(p, r)
 TNext == TCall \/ TRet \/ TLin
 Mark == MarkAccepted(h, l)
